@@ -141,7 +141,8 @@ def run_check(prop_id, tier, seed, replay=None, workers=None, keep=False):
     nw = workers or min(NPROC, max(1, len(cases) // getattr(mod, "MIN_PER_WORKER", 1)))
     nw = max(1, min(nw, len(cases)))
     parts = os.path.join(
-        bootstrap.VERIF, "evidence", ".parts", f"{prop_id}-{os.getpid()}"
+        os.environ.get("VERIF_EVIDENCE_DIR") or os.path.join(bootstrap.VERIF, "evidence"),
+        ".parts", f"{prop_id}-{os.getpid()}"
     )
     os.makedirs(parts, exist_ok=True)
     shards = [[] for _ in range(nw)]
@@ -289,7 +290,7 @@ def run_check(prop_id, tier, seed, replay=None, workers=None, keep=False):
 
     replay_paths = []
     if fresh:
-        rdir = os.path.join(bootstrap.VERIF, "replays", prop_id)
+        rdir = os.path.join(os.environ.get("VERIF_REPLAY_DIR") or os.path.join(bootstrap.VERIF, "replays"), prop_id)
         os.makedirs(rdir, exist_ok=True)
         seen_kinds = Counter()
         for v in fresh:
@@ -336,8 +337,9 @@ def run_check(prop_id, tier, seed, replay=None, workers=None, keep=False):
             "wall_s": round(wall, 2),
             "violations": len(fresh),
         }
-        os.makedirs(os.path.join(bootstrap.VERIF, "evidence"), exist_ok=True)
-        with open(os.path.join(bootstrap.VERIF, "evidence", f"{prop_id}.json"), "w") as f:
+        evdir = os.environ.get("VERIF_EVIDENCE_DIR") or os.path.join(bootstrap.VERIF, "evidence")
+        os.makedirs(evdir, exist_ok=True)
+        with open(os.path.join(evdir, f"{prop_id}.json"), "w") as f:
             json.dump(ev, f, indent=1, default=str)
             f.write("\n")
 
